@@ -72,3 +72,5 @@ def step (_ : Unit) (line : String) : Unit × Verdict :=
   ((), r)
 
 end Driver.Quorum
+
+def main : IO UInt32 := Driver.runArea Driver.Quorum.step ()
